@@ -5,7 +5,7 @@ use secp256k1::PublicKey;
 use tokio::sync::{mpsc, oneshot, Mutex};
 
 use anyhow::{anyhow, Context, Result};
-use secp256k1::hashes::sha256::Hash;
+use secp256k1::hashes::{sha256::Hash, Hash as _};
 use tracing::{debug, error, field, instrument, trace, warn};
 
 use crate::{
@@ -306,6 +306,14 @@ where
                 return Err(anyhow!("invalid trampoline invoice in tlv"));
             }
         };
+
+        // The invoice has to be for the payment hash of the htlc. Otherwise the
+        // preimage obtained by paying the invoice does not settle this htlc.
+        if req.htlc.payment_hash != invoice.payment_hash().to_byte_array() {
+            return Err(anyhow!(
+                "trampoline invoice payment hash does not match htlc payment hash"
+            ));
+        }
 
         // For now invoices need to have a valid signature, because the `pay`
         // command requires invoices to have a valid signature. Once we move away
